@@ -48,11 +48,12 @@ CLAIMED = {
     "C09": (BMC + "std Range/RangeInclusive/RangeFrom iterators from every (start,end) pair",
             "For each of the 13 Step types every (start,end) pair is symbolic (inverted, MIN/MAX, char pairs across the surrogate gap) and "
             "K symbolic front/back steps (stepping on after exhaustion) are compared with std, for the forward and reversed iterator "
-            "types; the for_each!/eval! macro route is checked for ranges of up to 4 items. Bounded in the number of steps, not in the values.",
+            "types; the for_each!/eval! macro route is checked for ranges of up to 4 items; the RangeFrom step past MAX must overflow (panic in the "
+            "modelled debug profile) like std, neither saturating nor returning. Bounded in the number of steps, not in the values.",
             "DESIGN.md#c09"),
     "C11": (BMC + "<[T;N]>::map / core::array::from_fn slot by slot (unwritten memory is nondeterministic under CBMC), should_panic / diverging twins for hostile closures and builder misuse",
             "For N in {0,1,2,4}, every input array and every closure of the symbolic families: map!/map_!/from_fn!/from_fn_! equal std in "
-            "every slot; with break / panic at a symbolic position the macro panics and the statement after it is unreachable; with continue "
+            "every slot, also when the closure parameter is written `ref mut i` / `mut i` / `ref i` and written through; with break / panic at a symbolic position the macro panics and the statement after it is unreachable; with continue "
             "it does not return within the bound; return / labelled break produce no array; ArrayBuilder under every operation sequence "
             "returns the pushed values, and build-before-full / push-when-full panic. collect_const!'s const wrapper is outside the claim.",
             "DESIGN.md#c11"),
@@ -100,7 +101,8 @@ CLAIMED = {
             "taken, remainder and offsets with the specification for every valid UTF-8 input up to 3-4 bytes. The proc macro's own "
             "execution is not symbolically executed, only its output per generated literal.", "DESIGN.md#c18"),
     "C19": (BMC + "the std Option/Result methods, `?`, core::cmp::{min,max,..}; generated rebind programs are first compiled (acceptance) then solver-checked",
-            "All payloads are 8-bit and fully symbolic and closures come from symbolic xor/mask families with call counters, so each "
+            "All payloads are 8-bit and fully symbolic and closures come from symbolic xor/mask families with call counters (value arguments of "
+            "unwrap_or!/ok_or! carry a counter too: evaluated exactly once), so each "
             "harness is exhaustive in the values; macro forms (closure / function path) and the rebind program family (arity 1..6 x "
             "{place, let, typed let, _} x {rebind_if_ok with/without code, try_rebind}) are enumerated (seeded sample above arity 2/3). A "
             "generated program that rustc rejects is reported as a violation with the program as replay.", "DESIGN.md#c19"),
